@@ -1,4 +1,5 @@
 """vorbisfile-family checks (C03 C07 C08 C09 C10 C12 C13(vf part) C17 C19 C20): scenario families + entry points."""
+from concurrent.futures import ThreadPoolExecutor
 import os, sys, json, time, random
 import vlib
 from checks.vfcommon import *
@@ -181,13 +182,78 @@ def check_c07(pid, tier, seed, replay=None):
         tg = [str(p) for p in range(seed % step, tot, step)]
         for i in range(0, len(tg), 400):
             scs.append(fam_seekgrid(rng, f, 'ps', tg[i:i+400], f'stride-ps-{f}-{i}', reads=1))
+    # histories on streams with long stretches without a granule position (the page search of VFSeek.tla decides where decoding resumes)
+    for i, f in enumerate(BISECT_FILES):
+        scs.append(fam_history(rng, f, 14 if quick else 30, f'hist-gap{i}-{f}'))
+    bis, _ = fam_bisect(random.Random(seed * 31 + 7), True, kinds=('ps', 'psp', 'psl'))
+    scs += bis if not quick else bis[(seed % 2)::2]
     res = run_batch(pid, tier, scs, bindir)
     rules = READ_RULES | SEEK_RULES | SAFETY_RULES | {'OpenStartsAtZero','IntactOpenSucceeds'}
     return finish(pid, tier, seed, 'model_checking', scs, res, rules, t0,
-      'scenario = one recorded vorbisfile call history on one generated stream (TLC-generated symbolic histories from VFApi_MC concretised on real files, random mixed histories, linear reads); non-trivial = at least one read that delivered samples after open, >= 4 events; distinct = distinct script text',
+      'scenario = one recorded vorbisfile call history on one generated stream (TLC-generated symbolic histories from VFApi_MC concretised on real files, random mixed histories, linear reads, seek grids and histories on streams with stretches of more than 64 KiB without a granule position of the link); non-trivial = at least one read that delivered samples after open, >= 4 events; distinct = distinct script text',
       nontrivial_default, COMMON_ASSUME, extra_cov=dict(tla_generator=tl['stats']))
 
 # ---------------------------------------------------------------- C08
+BISECT_FILES = ['ZA', 'ZB', 'ZC', 'ZD', 'ZE', 'ZF']
+def fam_bisect(rng, quick, kinds=('ps', 'psp')):
+    """seek grids on streams with long stretches without a granule position; page table + callback seeks logged for VFSeek_Trace"""
+    import checks.vfcommon as C
+    files = list(BISECT_FILES); out = []
+    for i in range(0 if quick else 60):
+        l = rng.choice([6, 1, 0, 15, 11, 19]); npk = {6: 11, 1: 20, 0: 30, 15: 8, 11: 12, 19: 14}[l]
+        opt = ':ppp=' + ','.join(str(rng.choice([1, 2, 3, 5, 10, 255])) for _ in range(rng.randint(1, 3)))
+        for _ in range(rng.randint(1, 2)): opt += f':pad={rng.randrange(0, npk)}={rng.choice([66000, 70000, 131000, 140000, 200000, 262000]) + rng.randrange(0, 300)}'
+        if rng.random() < .4: opt += f':mux={rng.choice([1, 2])}'
+        pre = rng.choice(['', '1 ', '2:s=41 ']); post = rng.choice(['', ' 6:s=43', ' 2:s=44'])
+        key = f'ZR{i}'; C.FILES[key] = f'{pre}{l}{opt}{post}'; files.append(key)
+    for f in files:
+        for kind in kinds:
+            tg = pcm_targets(rng, f, 60 if quick else 400, dense=True)
+            if f in ('ZA', 'ZD'): tg += [f'e:{d}' for d in range(-8, 1)] if f == 'ZA' else [f'p:1:0:{d}' for d in range(45, 57)]
+            s = fam_seekgrid(rng, f, kind, tg, f'bisect-{kind}-{f}', reads=1)
+            s.lines[0:0] = [f'pages {fid(f)}', 'sklog 1']; s.family = 'bisect-' + kind
+            out.append(s)
+    return out, {f: C.FILES[f] for f in files}
+
+def bisect_fidelity(res, extra_viol):
+    """second validation of the traces that carry page tables: VFSeek_Trace compares the callback seeks of every sample / page seek with the model of the search"""
+    import glob
+    tps = [tp for tp in glob.glob(os.path.join(res['rundir'], 'b*.ndjson')) if any('"Pages"' in l for l in open(tp))]
+    def val(tp): return tp, vlib.validate_trace('VFSeek_Trace.tla', 'VFSeek_Trace.cfg', tp, timeout=900)
+    with ThreadPoolExecutor(max_workers=8) as ex: rs = list(ex.map(val, tps))
+    out = dict(traces=len(tps), calls_compared=0, probes_not_as_modelled=0, model_submits_other_page=0, states=0, examples=[])
+    for tp, r in rs:
+        if r['error'] or not r['ok']: res['infra'].append(f'TLC problem (VFSeek_Trace) on {tp}: ' + r['out'][-600:]); continue
+        out['states'] += r['distinct']
+        out['calls_compared'] += sum(int(x) for x in re.findall(r'COMPARED (\d+)', r['out']))
+        evs = vlib.read_ndjson(tp)
+        for m in re.finditer(r'"DRIFT (\{.*\})"', r['out']):
+            try: v = json.loads(m.group(1).replace('\\"', '"'))
+            except Exception: continue
+            if 'ProbesAsModelled' in v['rules']: out['probes_not_as_modelled'] += 1
+            if 'ModelSubmitsRightPage' in v['rules']: out['model_submits_other_page'] += 1
+            if len(out['examples']) < 5:
+                e = evs[v['line'] - 1]; out['examples'].append(dict(scn=v['scn'], rules=v['rules'], pos=e.get('pos'), off0=e.get('off0'), probes=e.get('probes')))
+    if out['probes_not_as_modelled'] or out['model_submits_other_page']:
+        vlib.log(f"[seek model] MODEL-DRIFT notes: probes {out['probes_not_as_modelled']}, page {out['model_submits_other_page']} of {out['calls_compared']} calls; first: {out['examples'][:1]}")
+    return out
+
+def seek_model_check(pid, quick):
+    """VFSeek_MC: the repaired search over every small layout; and the three pinned rules, each of which TLC must refute (the model can tell them apart)"""
+    out = dict(states=0, transitions=0, configs={}, pinned_rules_refuted={}); viol = []
+    cfgs = ['VFSeek_MC.cfg'] if quick else ['VFSeek_MC.cfg', 'VFSeek_MC_5.cfg', 'VFSeek_MC_6.cfg']
+    for c in cfgs:
+        r = vlib.run_tlc('VFSeek_MC.tla', c, workers=4 if quick else 14, timeout=300 if quick else 3000)
+        out['configs'][c] = dict(ok=bool(r['ok']), states=r['distinct'], wall_s=round(r['wall'], 1)); out['states'] += r['distinct']; out['transitions'] += r['generated']
+        if not r['ok']:
+            os.makedirs(vlib.REPLAY, exist_ok=True); p = os.path.join(vlib.REPLAY, f'{pid}-design-{c}.txt'); o = r['out']; i = o.find('Error:'); open(p, 'w').write(o[max(0, i):i + 4000])
+            if r['violated']: viol.append(dict(replay=p, what=f'design-level invariant of VFSeek_MC violated under {c}: the page search as modelled from the current tree submits the wrong page or does not terminate'))
+            else: raise SystemExit(f'TLC failed on {c}: ' + o[-800:])
+    for c in (['VFSeek_MC_pinned_handover.cfg', 'VFSeek_MC_pinned_end.cfg'] if quick else ['VFSeek_MC_pinned_handover.cfg', 'VFSeek_MC_pinned_end.cfg', 'VFSeek_MC_pinned_backup.cfg']):
+        r = vlib.run_tlc('VFSeek_MC.tla', c, workers=4 if quick else 14, timeout=600 if quick else 3000)
+        out['pinned_rules_refuted'][c] = bool(r['violated'])
+    return out, viol
+
 def check_c08(pid, tier, seed, replay=None):
     t0 = time.time(); rng = random.Random(seed*7919+8)
     bindir = vlib.build('asan')
@@ -212,12 +278,17 @@ def check_c08(pid, tier, seed, replay=None):
             tg = [str(p) for p in range(-1, tot+2)]
             for kind in ('ps','psp'):
                 scs.append(fam_seekgrid(rng, f, kind, tg, f'every-{kind}-{f}', reads=1))
-    res = run_batch(pid, tier, scs, bindir)
+    bis, bis_files = fam_bisect(rng, quick); scs += bis
+    with ThreadPoolExecutor(max_workers=2) as ex0:
+        fmc = ex0.submit(seek_model_check, pid, quick)
+        res = run_batch(pid, tier, scs, bindir)
+        mc, extra_viol = fmc.result()
+    seekmodel = bisect_fidelity(res, extra_viol); seekmodel['design'] = mc
     rules = SEEK_RULES | READ_RULES | SAFETY_RULES
     def nt(s, evs): return sum(1 for e in evs if e.get('e') in ('PcmSeek','PcmSeekPage','RawSeek','TimeSeek','TimeSeekPage') and e.get('ret')==0) >= 3
     return finish(pid, tier, seed, 'model_checking', scs, res, rules, t0,
-      'scenario = chain of seeks of one kind (sample / page / raw / time, each followed by reads) on one generated stream, targets = every page, packet and link boundary +-1, 0, L, L+-1, negative, fractions (thorough: every position of short files, every prior-history class); non-trivial = >= 3 successful seeks; distinct = distinct script text',
-      nt, COMMON_ASSUME)
+      'scenario = chain of seeks of one kind (sample / page / raw / time, each followed by reads) on one generated stream, targets = every page, packet and link boundary +-1, 0, L, L+-1, negative, fractions (thorough: every position of short files, every prior-history class) + the bisect family: streams with stretches of more than one probe step (64 KiB) without a granule position of the link (packets padded over several pages, multiplexed streams, a first audio page that ends no packet), every page / packet boundary +-1 and a dense sweep, with the page table and the callback seeks of every call logged and compared with VFSeek.tla; non-trivial = >= 3 successful seeks; distinct = distinct script text',
+      nt, COMMON_ASSUME, extra_cov=dict(seek_model=seekmodel, bisect_files=bis_files, design_model=dict(states=mc['states'], transitions=mc['transitions'])), extra_viol=extra_viol)
 
 # ---------------------------------------------------------------- C09
 def check_c09(pid, tier, seed, replay=None):
